@@ -777,5 +777,10 @@ func ioReadAll(fr *frame, a []value) value {
 		h.pos = int64(len(blob))
 		return tuple{append([]value(nil), blob[pos:]...), iface{}}
 	}
+	if r, ok := a[0].(iface); ok && r.t != nil {
+		if _, isCR := nativeOf[*creader](a[0]); !isCR {
+			return i.genericReadAll(r)
+		}
+	}
 	panic(engineError{"io.ReadAll over an unmodelled reader at " + i.where()})
 }
